@@ -19,6 +19,7 @@ class ContractBroken(Exception):
 
 def _broken(name):
     def make():
+        LAST_BROKEN.append(name)
         return ContractBroken('post-condition of %s failed' % name, name=name)
     return make
 
